@@ -170,7 +170,7 @@ func rgEntry(r *rand.Rand, o rgOpts, i, j int, mapper *[]interface{}) vx.M {
 		e["re"] = rgRE(r, p[a:b])
 		kinds++
 	}
-	if r.Intn(2) == 0 {
+	if r.Intn(3) == 0 {
 		ms := []interface{}{}
 		for _, m := range rgMethods[:3] {
 			if r.Intn(2) == 0 {
@@ -181,7 +181,7 @@ func rgEntry(r *rand.Rand, o rgOpts, i, j int, mapper *[]interface{}) vx.M {
 	}
 	nh := 0
 	switch x := r.Intn(10); {
-	case x < 5:
+	case x < 6:
 		nh = 0
 	case x < 8:
 		nh = 1
@@ -283,8 +283,14 @@ func rgReqPaths(r *rand.Rand, cfg vx.M) []string {
 	return res
 }
 
-func rgHost(r *rand.Rand) string {
+func rgHost(r *rand.Rand, cfg vx.M) string {
 	h := rgPick(r, rgHostNames)
+	// more often than not a host some rule is configured for
+	if rules := vx.List(cfg["rules"]); len(rules) > 0 && r.Intn(3) != 0 {
+		if x := vx.Chars(rules[r.Intn(len(rules))].(vx.M)["host"]); x != "" {
+			h = x
+		}
+	}
 	switch r.Intn(3) {
 	case 0:
 		if h == "::1" {
@@ -298,7 +304,7 @@ func rgHost(r *rand.Rand) string {
 	return h
 }
 
-func rgReq(r *rand.Rand, o rgOpts, paths []string, clients []vx.M) vx.M {
+func rgReq(r *rand.Rand, o rgOpts, cfg vx.M, paths []string, clients []vx.M) vx.M {
 	hdr := vx.M{}
 	for _, k := range rgHdrKeys {
 		if r.Intn(2) == 0 {
@@ -307,7 +313,7 @@ func rgReq(r *rand.Rand, o rgOpts, paths []string, clients []vx.M) vx.M {
 			hdr[k] = []interface{}{}
 		}
 	}
-	q := vx.M{"host": rhChars(rgHost(r)), "m": rhChars(rgPick(r, rgMethods)), "path": rhChars(rgPick(r, paths)),
+	q := vx.M{"host": rhChars(rgHost(r, cfg)), "m": rhChars(rgPick(r, rgMethods)), "path": rhChars(rgPick(r, paths)),
 		"hdr": hdr, "ip": clients[r.Intn(len(clients))]}
 	if o.filters {
 		q = rgVia(r, q)
